@@ -36,8 +36,15 @@ def draw(seed, i):
         pol.update(d=rng.randint(1, 3), horizon=60 * P)
     if kind == 'rr':
         pol.update(p_stall=rng.choice([0.05, 0.2]), max_stall=rng.choice([5, 40]))
-    return dict(table_seed=rs, compl=rng.choice([3, 3, 4, 10]), P=P, seed=rs, policy=pol, eager=rng.choice([0.0, 0.5, 1.0]),
-                root_copy=rng.random() < 0.25, run_seed=rs)
+    a = dict(table_seed=rs, compl=rng.choice([3, 3, 4, 10]), P=P, seed=rs, policy=pol, eager=rng.choice([0.0, 0.5, 1.0]),
+             root_copy=rng.random() < 0.25, run_seed=rs)
+    if rng.random() < 0.2:
+        # a user-chosen function prior: non-default prefixes of the prior file, the per-rank/combined files and the final table
+        a['prefixes'] = dict(fnprior_prefix='katz_codelen_', combineDL_prefix='combine_DL_katz_', final_prefix='final_katz_')
+    if rng.random() < 0.03:
+        a['big'] = True
+        a['P'] = rng.choice([1, 2, 4, 16])
+    return a
 
 
 def main(tier, seed, budget):
@@ -45,7 +52,7 @@ def main(tier, seed, budget):
     rep = base.Reporter(PID)
     quick = tier == 'quick'
     explore_s = budget or (120 if quick else 1200)
-    stats = dict(worlds=0, by_P={}, P_gt_U=0, rows=0, finite=0, ties=0, multi_argmin=0, cmp=0, events=0, nontrivial=set(),
+    stats = dict(big=0, prefixed=0, worlds=0, by_P={}, P_gt_U=0, rows=0, finite=0, ties=0, multi_argmin=0, cmp=0, events=0, nontrivial=set(),
                  tables=set(), no_variant_uniques=0)
     samples = []
     selftest = {}
@@ -81,6 +88,8 @@ def main(tier, seed, budget):
                 continue
             r = out[1]
             stats['worlds'] += 1
+            stats['big'] += int(bool(a.get('big')))
+            stats['prefixed'] += int(bool(a.get('prefixes')))
             stats['events'] += r['steps']
             stats['by_P'][a['P']] = stats['by_P'].get(a['P'], 0) + 1
             tb, s_ = r.get('table') or {}, r.get('stats') or {}
@@ -115,7 +124,7 @@ def main(tier, seed, budget):
         rule='one evaluation = one simulated combine_DL world on a generated result table (U in 2..40 uniques, N in U..4U functions, palette '
              'with ties, inf, nan, repeated likelihoods, uniques without variants), P and scheduler policy drawn from the run seed. Non-trivial = '
              'P >= 2; distinct by (table seed, P, reduced interleaving digest).',
-        samples=samples, worlds_by_P=stats['by_P'], worlds_with_more_ranks_than_uniques=stats['P_gt_U'], distinct_tables=len(stats['tables']),
+        samples=samples, worlds_by_P=stats['by_P'], worlds_with_more_ranks_than_uniques=stats['P_gt_U'], distinct_tables=len(stats['tables']), tables_with_more_than_1000_uniques=stats['big'], worlds_with_non_default_file_prefixes=stats['prefixed'],
         final_rows_checked=stats['rows'], uniques_with_finite_DL=stats['finite'], tables_with_DL_ties=stats['ties'],
         uniques_with_several_minimising_variants=stats['multi_argmin'], uniques_without_non_nan_variant=stats['no_variant_uniques'],
         one_rank_reruns_compared=stats['cmp'], seam_events=stats['events'],
